@@ -127,6 +127,21 @@ jddiffct = src("jddiffct.c")
 ahead = min(rows_ahead(jdcoefct, "decompress_data", r"\ndecompress_data\s*\(j_decompress_ptr cinfo", jdcoefct),
             rows_ahead(jddiffct, "output_data", r"\noutput_data\s*\(j_decompress_ptr cinfo", jddiffct))
 
+# ---- lossless restart handling (jddiffct.c)
+b = body(jddiffct, r"\ndecompress_data\s*\(j_decompress_ptr cinfo", "jddiffct decompress_data")
+m = re.search(r"if \(!process_restart\(cinfo, yoffset\)\)\s*\{(.*?)\}", b, flags=re.S)
+if not m:
+    die("jddiffct.c decompress_data: `if (!process_restart(cinfo, yoffset)) {` not found")
+facts["lossless_restart_resumes_at_row"] = (re.search(r"diff->MCU_vert_offset\s*=\s*yoffset;", m.group(1)) is not None and
+                                            "return JPEG_SUSPENDED" in m.group(1))
+pb = body(jddiffct, r"\nprocess_restart\s*\(j_decompress_ptr cinfo, unsigned int yoffset\)", "jddiffct process_restart")
+i_ent = pos(pb, "(*cinfo->entropy->process_restart) (cinfo)", "jddiffct process_restart")
+i_mask = pos(pb, "diff->restart_pending |= 1U << yoffset", "jddiffct process_restart")
+facts["lossless_pending_mask"] = (i_ent < i_mask and "(*cinfo->idct->start_pass)" not in pb and
+                                  re.search(r"if \(diff->restart_pending & 1\)\s*\(\*cinfo->idct->start_pass\) \(cinfo\);", b) is not None and
+                                  re.search(r"if \(row > 0 && \(diff->restart_pending & \(1U << row\)\)\)\s*\(\*cinfo->idct->start_pass\) \(cinfo\);", b) is not None and
+                                  pos(b, "diff->restart_pending = 0;", "decompress_data", last=True) > pos(b, "predict_undifference", "decompress_data"))
+
 # ---- constants the models use
 jdhuffh = src("jdhuff.h")
 m = re.search(r"#if SIZEOF_SIZE_T == 8[^\n]*\n\s*typedef size_t bit_buf_type;[^\n]*\n#define BIT_BUF_SIZE\s+(\d+)", jdhuffh)
